@@ -29,11 +29,59 @@ def handle (line : String) : String :=
 
 def hasTok (obs : String) (p : String → Bool) : Bool := ((obs.splitOn " ").filter (· ≠ "")).any p
 
+/-- `(thread, op)` of a start step `T=op[@pt][!]` (none for `T>`, `I…`, `gate`) -/
+def stepOp (step : String) : Option (String × String) :=
+  match (Exec.stripBang step).splitOn "=" with
+  | [n, rhs] => some (n, (Exec.splitAt rhs).1)
+  | _ => none
+
+/-- what the property's last sentence demands of a call that begins after the close has returned
+    (ErrQueueIsClosed / ErrWorkerPoolIsClosed / IsClosed, IsDone true / YieldFrom answers the zero value);
+    `none`: the API has no result that could report it (Post/Send, GetChannel; Count is not named) -/
+def afterReq (comp op : String) : Option String :=
+  if comp == "bcq" then
+    if op == "take" || op == "poll" || op == "twt" || op.startsWith "offer:" || op.startsWith "put:" then some "closed"
+    else if op == "isclosed" then some "b1" else none
+  else if comp == "pool" then
+    if op.startsWith "sched:" then some "pclosed" else if op == "isclosed" then some "b1" else none
+  else if comp == "cor" then
+    if op.startsWith "yf:" then some "ok0" else if op == "isdone" then some "b1" else none
+  else none
+
+/-- directed schedules: the first result token of an operation that was *started* after the closer's `=ok`
+    (Close returned / the target's goroutine is gone) and does not report the close -/
+def afterViolation (line impl : String) : Option String :=
+  match line.splitOn ": " with
+  | [head, body] =>
+    match (head.splitOn " ").filter (· ≠ "") with
+    | comp :: _ =>
+      let steps := splitSteps body
+      let toks := (((impl.splitOn " | ").headD "").splitOn " ").filter (· ≠ "")
+      if steps.length != toks.length then none else
+      let closer := steps.findSome? (fun st => match stepOp st with
+        | some (n, op) => if op == "close" || op == "ret" then some n else none
+        | none => none)
+      match closer with
+      | none => none
+      | some c =>
+        ((steps.zip toks).foldl (fun (acc : Bool × Option String) (st : String × String) =>
+          let (closed, viol) := acc
+          let viol' := if viol.isSome || !closed then viol else
+            match stepOp st.1 with
+            | some (n, op) =>
+              match afterReq comp op with
+              | some want => if st.2.startsWith (n ++ "=") && st.2 != n ++ "=" ++ want then some st.2 else none
+              | none => none
+            | none => none
+          (closed || st.2 == c ++ "=ok", viol')) (false, none)).2
+    | [] => none
+  | _ => none
+
 /-- spec-level oracle, from the property's own statement: a goroutine panicked (`=panic`, `panics=k`, `crash`),
     a goroutine is stuck for good (`!stuck`, `stuck=k`, `hang`), a callback ran for work submitted after the
     close returned (`late=k`), the pool's panic handler saw a non-job panic (`np=k`), or a call made after the
     close returned did not report it (`after=bad…`). -/
-def judge (_line impl : String) : String :=
+def judge (line impl : String) : String :=
   if impl == "hang" then "violation deadlock: the case did not terminate"
   else if impl == "crash" || impl == "panic" then "violation a goroutine panicked (process-level)"
   else if hasTok impl (fun t => t.endsWith "=panic") then "violation a calling goroutine panicked"
@@ -43,6 +91,8 @@ def judge (_line impl : String) : String :=
   else if hasTok impl (fun t => t.startsWith "late=" && t != "late=0") then "violation a callback ran for work submitted after the close returned"
   else if hasTok impl (fun t => t.startsWith "np=" && t != "np=0") then "violation the pool's panic handler was invoked for a non-job panic"
   else if hasTok impl (fun t => t.startsWith "after=" && t != "after=ok") then "violation a call begun after the close returned did not report it"
+  else if (afterViolation line impl).isSome then
+    "violation a call begun after the close returned did not report it: " ++ (afterViolation line impl).getD ""
   else "allowed no panic, no deadlock, no late callback in the observation (model differs)"
 
 end FpgoVerif.C15
